@@ -124,6 +124,22 @@ func Decode(encdoc EncodedDocument, collectionDefinition client.CollectionDefini
 		return nil, err
 	}
 
+	// A nil value is stored as the absence of the key: the default value of a field
+	// applies to a new document only, never to a stored one.
+	stored := make(map[string]struct{}, len(properties))
+	for desc := range properties {
+		stored[desc.Name] = struct{}{}
+	}
+	for _, field := range collectionDefinition.GetFields() {
+		if _, ok := stored[field.Name]; ok || field.DefaultValue == nil || !field.Kind.IsNillable() {
+			continue
+		}
+		err = doc.Set(field.Name, nil)
+		if err != nil {
+			return nil, err
+		}
+	}
+
 	for desc, val := range properties {
 		err = doc.Set(desc.Name, val)
 		if err != nil {
